@@ -27,7 +27,13 @@ thread_local! {
 }
 
 fn sync_cas(w: &mut World) {
-	let idents: Vec<Vec<(String, String)>> = w.plan.config.certificates.iter().map(expect::cert_wire_idents).collect();
+	let idents: Vec<Vec<(String, String)>> = w
+		.plan
+		.config
+		.certificates
+		.iter()
+		.map(expect::cert_wire_idents)
+		.collect();
 	let mut eab = std::collections::BTreeMap::new();
 	for a in w.plan.config.accounts.iter() {
 		if let Some(e) = &a.external_account {
@@ -47,7 +53,8 @@ fn sync_cas(w: &mut World) {
 fn plant_pre_files(w: &mut World) -> Result<(), String> {
 	use openssl::pkey::PKey;
 	let pre = w.plan.world.pre_files.clone();
-	let mut planted_keys: std::collections::BTreeMap<usize, PKey<openssl::pkey::Private>> = Default::default();
+	let mut planted_keys: std::collections::BTreeMap<usize, PKey<openssl::pkey::Private>> =
+		Default::default();
 	for p in pre.iter() {
 		let path = match toml_emit::path_of(&w.plan, &w.scratch, &p.target) {
 			Some(p) => p,
@@ -60,7 +67,9 @@ fn plant_pre_files(w: &mut World) -> Result<(), String> {
 		};
 		let data: Vec<u8> = match kind {
 			"key" => {
-				let kt: acme_common::crypto::KeyType = arg.parse().map_err(|e: acme_common::error::Error| e.message)?;
+				let kt: acme_common::crypto::KeyType = arg
+					.parse()
+					.map_err(|e: acme_common::error::Error| e.message)?;
 				let kp = acme_common::crypto::gen_keypair(kt).map_err(|e| e.message)?;
 				let pem = kp.private_key_to_pem().map_err(|e| e.message)?;
 				if let Some(i) = idx {
@@ -76,19 +85,35 @@ fn plant_pre_files(w: &mut World) -> Result<(), String> {
 			"empty" => vec![],
 			"pair" => {
 				let i = idx.ok_or("pair needs crt:<i>")?;
-				let key = planted_keys.get(&i).ok_or("pair needs a key planted before")?;
+				let key = planted_keys
+					.get(&i)
+					.ok_or("pair needs a key planted before")?;
 				let ids = expect::cert_wire_idents(&w.plan.config.certificates[i]);
-				let dns: Vec<String> = ids.iter().filter(|(t, _)| t == "dns").map(|(_, v)| v.clone()).collect();
-				let ips: Vec<String> = ids.iter().filter(|(t, _)| t == "ip").map(|(_, v)| v.clone()).collect();
-				let life = if p.lifetime_s == 0 { 90 * 86400 } else { p.lifetime_s };
-				super::ca::issue::issue_for_private(key, &dns, &ips, w.wall_unix(), life)?.into_bytes()
+				let dns: Vec<String> = ids
+					.iter()
+					.filter(|(t, _)| t == "dns")
+					.map(|(_, v)| v.clone())
+					.collect();
+				let ips: Vec<String> = ids
+					.iter()
+					.filter(|(t, _)| t == "ip")
+					.map(|(_, v)| v.clone())
+					.collect();
+				let life = if p.lifetime_s == 0 {
+					90 * 86400
+				} else {
+					p.lifetime_s
+				};
+				super::ca::issue::issue_for_private(key, &dns, &ips, w.wall_unix(), life)?
+					.into_bytes()
 			}
 			other => return Err(format!("unknown pre_file content {}", other)),
 		};
 		if let Some(parent) = std::path::Path::new(&path).parent() {
 			std::fs::create_dir_all(parent).map_err(|e| e.to_string())?;
 		}
-		super::fs::touch(std::path::Path::new(&path), &data, p.mode.unwrap_or(0o600)).map_err(|e| e.to_string())?;
+		super::fs::touch(std::path::Path::new(&path), &data, p.mode.unwrap_or(0o600))
+			.map_err(|e| e.to_string())?;
 	}
 	Ok(())
 }
@@ -108,10 +133,23 @@ fn boot(w_scratch: &PathBuf) -> DaemonFuture {
 		match crate::main_event_loop::MainEventLoop::new(&cfg_path, &[]).await {
 			Ok(mut srv) => {
 				world::with(|w| {
-					w.accounts = srv.verif_accounts().iter().map(|(k, v)| (k.clone(), v.clone())).collect();
+					w.accounts = srv
+						.verif_accounts()
+						.iter()
+						.map(|(k, v)| (k.clone(), v.clone()))
+						.collect();
 					w.accounts.sort_by(|a, b| a.0.cmp(&b.0));
-					let ids: Vec<String> = w.plan.config.certificates.iter().map(toml_emit::cert_id).collect();
-					let pairs = ids.iter().map(|id| std::rc::Rc::new(super::snap::pair(w, id))).collect();
+					let ids: Vec<String> = w
+						.plan
+						.config
+						.certificates
+						.iter()
+						.map(toml_emit::cert_id)
+						.collect();
+					let pairs = ids
+						.iter()
+						.map(|id| std::rc::Rc::new(super::snap::pair(w, id)))
+						.collect();
 					w.push(Ev::BootOk { n, pairs });
 					let snaps = super::snap::accounts(w);
 					w.account_snaps.push((w.seq, "boot".to_string(), snaps));
@@ -120,7 +158,10 @@ fn boot(w_scratch: &PathBuf) -> DaemonFuture {
 			}
 			Err(e) => {
 				world::with(|w| {
-					w.push(Ev::BootErr { n, msg: e.message.clone() });
+					w.push(Ev::BootErr {
+						n,
+						msg: e.message.clone(),
+					});
 				});
 			}
 		}
@@ -131,7 +172,8 @@ fn stop_daemon(daemon: &mut Option<DaemonFuture>, why: &str) {
 	if daemon.is_some() {
 		world::with(|w| {
 			let snaps = super::snap::accounts(w);
-			w.account_snaps.push((w.seq, format!("stop:{}", why), snaps));
+			w.account_snaps
+				.push((w.seq, format!("stop:{}", why), snaps));
 		});
 		*daemon = None; // drop the future = the process dies here
 		exec::clear_timers();
@@ -162,18 +204,36 @@ fn apply_edit(w: &mut World, patch: &[EditItem]) {
 	for it in patch {
 		match it {
 			EditItem::Contacts { account, contacts } => {
-				for a in w.plan.config.accounts.iter_mut().filter(|a| &a.name == account) {
+				for a in w
+					.plan
+					.config
+					.accounts
+					.iter_mut()
+					.filter(|a| &a.name == account)
+				{
 					a.contacts = contacts.clone();
 				}
 			}
 			EditItem::KeyType { account, key_type } => {
-				for a in w.plan.config.accounts.iter_mut().filter(|a| &a.name == account) {
+				for a in w
+					.plan
+					.config
+					.accounts
+					.iter_mut()
+					.filter(|a| &a.name == account)
+				{
 					a.key_type = Some(key_type.clone());
 					a.signature_algorithm = None;
 				}
 			}
 			EditItem::Eab { account, eab } => {
-				for a in w.plan.config.accounts.iter_mut().filter(|a| &a.name == account) {
+				for a in w
+					.plan
+					.config
+					.accounts
+					.iter_mut()
+					.filter(|a| &a.name == account)
+				{
 					a.external_account = eab.clone();
 				}
 			}
@@ -187,7 +247,10 @@ fn apply_edit(w: &mut World, patch: &[EditItem]) {
 					c.key_type = Some(key_type.clone());
 				}
 			}
-			EditItem::GlobalModes { cert_file_mode, pk_file_mode } => {
+			EditItem::GlobalModes {
+				cert_file_mode,
+				pk_file_mode,
+			} => {
 				w.plan.config.global.cert_file_mode = *cert_file_mode;
 				w.plan.config.global.pk_file_mode = *pk_file_mode;
 			}
@@ -205,7 +268,11 @@ fn run_ops(plan: &Plan, outcomes: &mut Vec<String>) -> Result<(), String> {
 			w.push(Ev::Op { what });
 		});
 		match op {
-			Op::Run { attempts, max_virtual_s, only } => {
+			Op::Run {
+				attempts,
+				max_virtual_s,
+				only,
+			} => {
 				if daemon.is_none() {
 					daemon = Some(boot(&scratch));
 				}
@@ -221,14 +288,23 @@ fn run_ops(plan: &Plan, outcomes: &mut Vec<String>) -> Result<(), String> {
 						.collect();
 					(w.attempts_done.clone(), ids, w.mono)
 				});
-				let limit = if *max_virtual_s > 0 { Some(start + (*max_virtual_s as u128) * 1_000_000_000) } else { None };
+				let limit = if *max_virtual_s > 0 {
+					Some(start + (*max_virtual_s as u128) * 1_000_000_000)
+				} else {
+					None
+				};
 				let want = *attempts;
 				let mut stop = |w: &World| -> Option<String> {
-					let done = ids.iter().all(|id| w.attempts_done.get(id).copied().unwrap_or(0) >= base.get(id).copied().unwrap_or(0) + want);
+					let done = ids.iter().all(|id| {
+						w.attempts_done.get(id).copied().unwrap_or(0)
+							>= base.get(id).copied().unwrap_or(0) + want
+					});
 					// loop guard: a certificate that renews continuously (e.g. the CA issues
 					// already-expired certificates) must not spin until the event cap while another
 					// one sleeps for months
-					let spinning = w.attempts_done.iter().any(|(id, n)| ids.contains(id) && *n >= base.get(id).copied().unwrap_or(0) + want + 12);
+					let spinning = w.attempts_done.iter().any(|(id, n)| {
+						ids.contains(id) && *n >= base.get(id).copied().unwrap_or(0) + want + 12
+					});
 					if done {
 						Some("attempts".to_string())
 					} else if spinning {
@@ -259,7 +335,11 @@ fn run_ops(plan: &Plan, outcomes: &mut Vec<String>) -> Result<(), String> {
 				}
 			}
 			Op::Stop => stop_daemon(&mut daemon, "stop"),
-			Op::CrashAt { kind, nth, max_virtual_s } => {
+			Op::CrashAt {
+				kind,
+				nth,
+				max_virtual_s,
+			} => {
 				if daemon.is_none() {
 					daemon = Some(boot(&scratch));
 				}
@@ -286,7 +366,11 @@ fn run_ops(plan: &Plan, outcomes: &mut Vec<String>) -> Result<(), String> {
 			Op::CaForget { ca, account } => {
 				world::with(|w| {
 					// the account's key as the harness sees it (own JWK construction)
-					let thumb = super::snap::accounts(w).into_iter().flatten().find(|a| &a.name == account).map(|a| a.thumb);
+					let thumb = super::snap::accounts(w)
+						.into_iter()
+						.flatten()
+						.find(|a| &a.name == account)
+						.map(|a| a.thumb);
 					let now = w.seq as u128; // event sequence number, not time: instants tie
 					let n = match (w.cas.get_mut(*ca), &thumb) {
 						(Some(c), Some(t)) if !t.is_empty() => c.forget_account(Some(t), now),
@@ -303,7 +387,9 @@ fn run_ops(plan: &Plan, outcomes: &mut Vec<String>) -> Result<(), String> {
 					return Err("TruncateAccount while the daemon runs".into());
 				}
 				world::with(|w| {
-					if let Some(p) = toml_emit::path_of(&w.plan, &w.scratch, &format!("account:{}", account)) {
+					if let Some(p) =
+						toml_emit::path_of(&w.plan, &w.scratch, &format!("account:{}", account))
+					{
 						if let Ok(f) = std::fs::OpenOptions::new().write(true).open(&p) {
 							let full = f.metadata().map(|m| m.len()).unwrap_or(0);
 							if *at < full {
@@ -317,7 +403,9 @@ fn run_ops(plan: &Plan, outcomes: &mut Vec<String>) -> Result<(), String> {
 			}
 			Op::TruncateSweep { account, step } => {
 				stop_daemon(&mut daemon, "stop");
-				let path = world::with(|w| toml_emit::path_of(&w.plan, &w.scratch, &format!("account:{}", account)));
+				let path = world::with(|w| {
+					toml_emit::path_of(&w.plan, &w.scratch, &format!("account:{}", account))
+				});
 				let path = match path {
 					Some(p) => p,
 					None => continue,
@@ -347,7 +435,11 @@ fn run_ops(plan: &Plan, outcomes: &mut Vec<String>) -> Result<(), String> {
 							None
 						}
 					};
-					let o = exec::drive(daemon.as_mut().unwrap(), &mut stop, Some(start + 5_000_000_000));
+					let o = exec::drive(
+						daemon.as_mut().unwrap(),
+						&mut stop,
+						Some(start + 5_000_000_000),
+					);
 					outcomes.push(format!("{:?}", o));
 					stop_daemon(&mut daemon, "stop");
 					let _ = std::fs::write(&path, &original);
@@ -356,7 +448,9 @@ fn run_ops(plan: &Plan, outcomes: &mut Vec<String>) -> Result<(), String> {
 			}
 			Op::RemoveFile { cert, which } => {
 				world::with(|w| {
-					if let Some(p) = toml_emit::path_of(&w.plan, &w.scratch, &format!("{}:{}", which, cert)) {
+					if let Some(p) =
+						toml_emit::path_of(&w.plan, &w.scratch, &format!("{}:{}", which, cert))
+					{
 						if std::fs::remove_file(&p).is_ok() {
 							w.fired("fs.remove_file");
 						}
@@ -399,9 +493,15 @@ pub fn run_plan(plan: &Plan) -> RunResult {
 	let _ = std::fs::remove_dir_all(&scratch);
 	std::fs::create_dir_all(&scratch).expect("cannot create the scratch directory");
 	// the process environment is exactly the plan's (env::vars() is read by the daemon's hooks)
-	let keys: Vec<String> = std::env::vars_os().map(|(k, _)| k.to_string_lossy().to_string()).collect();
+	let keys: Vec<String> = std::env::vars_os()
+		.map(|(k, _)| k.to_string_lossy().to_string())
+		.collect();
 	for k in keys {
-		if k != "VERIF_SCRATCH" && !k.starts_with("ACMED_VERIF") && k != "RUST_BACKTRACE" && k != "RUST_LOG" {
+		if k != "VERIF_SCRATCH"
+			&& !k.starts_with("ACMED_VERIF")
+			&& k != "RUST_BACKTRACE"
+			&& k != "RUST_LOG"
+		{
 			std::env::remove_var(&k);
 		}
 	}
@@ -440,7 +540,10 @@ pub fn run_plan(plan: &Plan) -> RunResult {
 				} else {
 					"panic".to_string()
 				};
-				if msg.contains("harness error") || msg.contains("there is no reactor running") || msg.contains("no simulated world") {
+				if msg.contains("harness error")
+					|| msg.contains("there is no reactor running")
+					|| msg.contains("no simulated world")
+				{
 					harness_error = Some(msg);
 				} else {
 					world::with(|w| {
@@ -484,12 +587,23 @@ fn virtual_now_ns() -> u64 {
 }
 
 fn note_account_files(w: &mut World, when: &str) {
-	let names: Vec<String> = w.plan.config.accounts.iter().map(|a| a.name.clone()).collect();
+	let names: Vec<String> = w
+		.plan
+		.config
+		.accounts
+		.iter()
+		.map(|a| a.name.clone())
+		.collect();
 	for n in names {
 		if let Some(p) = toml_emit::path_of(&w.plan, &w.scratch, &format!("account:{}", n)) {
 			if let Ok(b) = std::fs::read(&p) {
 				let sha = super::util::sha256_hex(&b);
-				w.push(Ev::FileNote { path: p, sha, len: b.len() as u64, when: when.to_string() });
+				w.push(Ev::FileNote {
+					path: p,
+					sha,
+					len: b.len() as u64,
+					when: when.to_string(),
+				});
 			}
 		}
 	}
